@@ -95,6 +95,12 @@ func loadBases(repo string, thorough bool) []baseDoc {
 	if d, err := docmodel.Parse([]byte(grammar.CustomSpec)); err == nil {
 		out = append(out, baseDoc{"custom-unmarshalers (internal/grammar)", d})
 	}
+	if d, err := docmodel.Parse([]byte(grammar.RefsSpec)); err == nil {
+		out = append(out, baseDoc{"every component kind reached through references (internal/grammar)", d})
+	}
+	if d, err := docmodel.Parse([]byte(grammar.ShapesSpec)); err == nil {
+		out = append(out, baseDoc{"order-sensitive shapes (internal/grammar)", d})
+	}
 	for _, f := range files {
 		data, err := os.ReadFile(filepath.Join(repo, f))
 		if err != nil {
@@ -404,7 +410,11 @@ func relaxed(ix *posIndex, orig *docmodel.Node, mutated string, res result) stri
 	}
 	for _, c := range ss {
 		if c.Path == mutated {
-			collect(c.Parent.Vals[c.Idx])
+			n := c.Parent.Vals[c.Idx]
+			if n.Kind == 'v' && n.Tag == "str" && len(n.Value) < 60 {
+				names[n.Value] = true // the name the node carried before the mutation
+			}
+			collect(n)
 		}
 	}
 	for _, m := range quoted.FindAllStringSubmatch(res.Err, -1) {
